@@ -263,9 +263,15 @@ def observe(data):
             if rep2 != rep:
                 fail = f"the {again} safety check of the same Pickled object reports {canon(rep2)}, the first {canon(rep)}"
                 break
-    real = "OK %s | %s | %s | %s | %s" % (
+    try:
+        every = " ; ".join(canon(res.to_dict(v)) for v in Severity)
+    except Exception as e:
+        every = f"RAISED {type(e).__name__}"
+        if fail is None:
+            fail = f"to_dict(verbosity) raised {type(e).__name__}: {e}"
+    real = "OK %s | %s | %s | %s | %s | %s" % (
         sev.name if isinstance(sev, Severity) else "?", " ".join(sorted(fs)), canon(rep),
-        canon(filed) if filed is not None else "NOFILE", outcome)
+        canon(filed) if filed is not None else "NOFILE", outcome, every)
     try:        # iteration order of the `defined - used` set behind the UnusedVariables findings
         from fickling.fickle import Interpreter
         order = list(Interpreter(p).unused_assignments().keys())
